@@ -26,7 +26,13 @@ def _check_docstring(decorated_func: DecoratedFunction) -> None:
                 raise PedanticDocstringException(
                     f'{err} Documented type is incorrect: Annotation: {expected_type} Documented: {actual_return_type}')
         elif annotation != 'return':
-            docstring_param = list(filter(lambda p, a=annotation: p.arg_name == a, doc.params))[0]
+            matching_params = list(filter(lambda p, a=annotation: p.arg_name == a, doc.params))
+
+            if len(matching_params) != 1 or matching_params[0].type_name is None:
+                raise PedanticDocstringException(
+                    f'{err} Parameter {annotation} should be documented exactly once together with its type.')
+
+            docstring_param = matching_params[0]
             actual_param_type = _parse_documented_type(type_=docstring_param.type_name, context=context, err=err)
 
             if expected_type != actual_param_type:
